@@ -11,6 +11,12 @@ instance are generated (between calls only the batteries / only the inverters / 
 derated or widened bounds, moved exclusion zones, SoC to a limit; an unchanged component keeps its timestamp; the
 next request goes in the same or the opposite direction) and EVERY call is checked with the three clauses against
 the data given to THAT call.  A case with a `history` key = the last call of such a sequence (replayable).
+Manager level: sequences of requests through ONE real `BatteryManager` (`__init__` replaced by its plain attribute
+initialisations + fake caches / tracker / API) with only the inverters / only the batteries / both / nothing publishing a
+new message in between: the commanded set-points must be those a fresh manager commands for the LATEST data
+(`C02.manager-latest-data`) and satisfy the three clauses for that data (`mgrseq:*` tags; replayable).
+Floats: the clauses are also applied to the outputs of the run on IEEE doubles, incl. the cases where it takes another
+branch than the exact run (exponents 4–8).
 Correspondence: shared with C01 (same driver, same generators); the Lean model is stateless (`C02_history_free`,
 tied to the source by `Extracted.Dist.perCallState = []`), so each call of a sequence is compared with the model
 of that call alone.
